@@ -53,13 +53,14 @@ def budget(tier):
 
 
 def essential_labels(tier):
-    return ["n_0", "n_not_multiple_of_block", "two_blocks_in_kernel", "restricted_line_in_block", "include_file", "helper_function", "form:decl", "form:for", "kernels_2plus", "no_vectorised_block_in_source", "annotated_extra_header", "restricted_line_in_included_file", "blocks_with_different_bounds", "remark_before_annotation", "same_source_text_listed_twice"]
+    return ["n_0", "n_not_multiple_of_block", "two_blocks_in_kernel", "restricted_line_in_block", "include_file", "helper_function", "form:decl", "form:for", "kernels_2plus", "no_vectorised_block_in_source", "annotated_extra_header", "restricted_line_in_included_file", "blocks_with_different_bounds", "remark_before_annotation", "same_source_text_listed_twice", "limit_given_as_expression", "n_over_4096"]
 
 
 @st.composite
 def cases(draw, tier):
     block = draw(st.sampled_from([1, 2, 32, 256]))
-    n = draw(st.sampled_from([0, 1, 2, 3, max(block - 1, 0), block, block + 1, 2 * block + 3]))
+    # 4097 / 5003: beyond 4096 work items and not a multiple of 64 (launch geometries that round large sizes show there)
+    n = draw(st.sampled_from([0, 1, 2, 3, max(block - 1, 0), block, block + 1, 2 * block + 3] * 2 + [4097, 5003]))
     kernels = []
     fill = 0
     for j in range(draw(st.integers(1, 3))):
@@ -70,7 +71,8 @@ def cases(draw, tier):
                 restricted = {"targets": draw(st.lists(st.sampled_from(TARGETS), min_size=1, max_size=3, unique=True)), "c": draw(st.integers(1, 50)) * 100,
                               "remark": draw(st.integers(0, 2)) == 0}
             blocks.append({"form": draw(st.sampled_from(["decl", "for"])), "k": draw(st.integers(-5, 5)), "restricted": restricted,
-                           "bound": draw(st.sampled_from(["n", "n", "n2"])),
+                           # the limit is a name or a blank-free C expression (what the annotation's two-word syntax admits)
+                           "bound": draw(st.sampled_from(["n", "n", "n", "n2", "n2", "n2*0+n", "2*n-n", "n-1", "(n+n2)/2"])),
                            "helper": draw(st.booleans()), "fillers": draw(st.integers(0, 2))})
         inc = None
         if draw(st.integers(0, 2)) == 0:
@@ -185,6 +187,11 @@ def make_source(case):
     return "\n".join(lines) + "\n", files, fillers, restricted, header
 
 
+def bound_value(expr, n, n2):
+    """value of a block's limit expression (C integer arithmetic; operands are non-negative here)"""
+    return {"n": n, "n2": n2, "n2*0+n": n, "2*n-n": n, "n-1": n - 1, "(n+n2)/2": (n + n2) // 2}[expr]
+
+
 def reference(case, j, target, x):
     """expected (cnt, y) of kernel j on a target"""
     k = case["kernels"][j]
@@ -209,7 +216,7 @@ def reference(case, j, target, x):
         extra = blk["restricted"]["c"] if blk["restricted"] is not None and target in blk["restricted"]["targets"] else 0
         # CPU: once per index below the block's bound; CUDA: once per work item, guarded by the bound; OpenCL: once per
         # work item, unguarded (the statement's wording) - max(n, n2) work items are launched
-        for i in range(max(n, n2) if target == "opencl" else (n2 if blk.get("bound", "n") == "n2" else n)):
+        for i in range(max(n, n2) if target == "opencl" else max(0, bound_value(blk.get("bound", "n"), n, n2))):
             cnt[b * stride + i] = 1
             y[b * stride + i] = 2 * x[i] + blk["k"] + bias + outer + extra
     return cnt, y
@@ -342,8 +349,12 @@ def run_case(case):
     nt = max(n, n2)  # work items launched: enough for every block of the kernel
     rng_x = np.array([(i * 37 % 11) - 3.5 for i in range(max(nt, 1))], dtype="float64")[:nt]
     stride = nt + PAD
-    if n2 != n and any(len({b.get("bound", "n") for b in k["blocks"]}) == 2 for k in case["kernels"]):
+    if n2 != n and any(len({bound_value(b.get("bound", "n"), n, n2) for b in k["blocks"]}) >= 2 for k in case["kernels"]):
         labels.add("blocks_with_different_bounds")
+    if any(b.get("bound", "n") not in ("n", "n2") for k in case["kernels"] for b in k["blocks"]):
+        labels.add("limit_given_as_expression")
+    if n > 4096:
+        labels.add("n_over_4096")
 
     def fresh(j):
         nb = max(len(case["kernels"][j]["blocks"]), 1)
@@ -386,6 +397,12 @@ def run_case(case):
         return fail("launch_geometry_raised", f"{geo}", geo.key, labels)
     gsize, lsize, grid, blk = geo
     labels.add("geometry_recorded")
+    # the simulated launch writes into harness arrays with PAD spare entries per block: a geometry with more unguarded
+    # OpenCL work items than that (or a CUDA launch larger than one block beyond that) is judged here, not executed
+    if not 0 <= gsize <= nt + PAD:
+        return fail("executions_per_index", f"opencl n={n} n2={n2}: {gsize} work items launched for {nt} indices (unguarded on OpenCL)", "opencl|global_size", labels)
+    if not (0 <= grid * blk <= nt + blk + PAD and blk > 0):
+        return fail("executions_per_index", f"cuda n={n} n2={n2} block={block}: grid {grid} x block {blk} for {nt} indices", "cuda|grid", labels)
     for t, prelude in (("opencl", OCL_PRELUDE), ("cuda", CUDA_PRELUDE)):
         drv = []
         for j in range(nk):
